@@ -87,7 +87,7 @@ func (x *Exec) chanEvent(fr *Frame, st *State, what string, c, v *Term, ins ssa.
 			env.vars[m.Params[0]] = SVal{T: c}
 		}
 		if len(m.Params) > 1 && m.Params[1] != "_" && v != nil {
-			env.vars[m.Params[1]] = SVal{T: v}
+			env.vars[m.Params[1]] = SVal{T: v, GT: goTypeOfSort[v.Sort]}
 		}
 		x.runGhost(st, env, m.Stmts, "chan:"+what, x.site(fr, ins))
 	}
@@ -360,7 +360,19 @@ func (x *Exec) spawn(fr *Frame, st *State, ins ssa.Instruction, fn *ssa.Function
 			}
 			x.oblige(sub, "pre("+key+")", lab, site+".spawn", env.boolean(r.Expr), "precondition of a detached function at its spawn site")
 		}
-		x.assumed["detached goroutine "+key+": verified against its own contract; the spawning thread only learns that it was started"] = true
+		// declared spawn effect `attr closes <captured variable>`: the started function is the closer of that channel
+		if p := con.Attrs["closes"]; p != "" {
+			b, ok := fb[p]
+			if !ok {
+				unsup("attr closes %s: %s captures no such variable", p, key)
+			}
+			ch := x.loadPtr(sub, b.ptr, b.elem)
+			cl := st.G("chCloser")
+			st.setG("chCloser", Ite(ran, Store(cl, ch, True), cl))
+			ex := st.G("chExt")
+			st.setG("chExt", Ite(ran, Store(ex, ch, True), ex))
+		}
+		x.assumed["detached goroutine "+key+": verified against its own contract; the spawning thread only learns that it was started (and which channel it will close)"] = true
 		return Value{}
 	}
 	// in place
